@@ -350,7 +350,8 @@ def identity_key_issues(l, r, aoh_key=None):
     (--help epilog) "the first attribute of the first record" -- of either
     document's sequence, the epilog does not say which.  Returns a subset of
       {"missing":   some record of a group lacks (one of) the identity field(s),
-       "duplicate": two records of one sequence share an identity value}.
+       "duplicate": two records of one sequence share an identity value,
+       "bool-int":  two identity values of one sequence are distinct only as true/1}.
     Only used to *name* the cause of a disagreement."""
     groups = {}
 
@@ -387,6 +388,11 @@ def identity_key_issues(l, r, aoh_key=None):
                         vals.append(canon(rec[f]))
                 if len(set(vals)) != len(vals):
                     issues.add("duplicate")
+                raw = [rec[f] for rec in s if f in rec]
+                for i in range(len(raw)):
+                    for j in range(i + 1, len(raw)):
+                        if loose_equal(raw[i], raw[j]) and not strict_equal(raw[i], raw[j]):
+                            issues.add("bool-int")
     return issues
 
 
@@ -509,12 +515,14 @@ def diff_truth(entries, lhs, rhs, modes):
             return False
         want = Counter()
         first_path = {}
+        all_paths = {}
         sided_paths = set(e[1] for e in parsed if e[0] in actions and e[1] is not None)
         for lp, tok in leaves(doc):
             if skip(lp, tok):
                 continue
             k = (lp if pos else erase(lp), tok)
             want[k] += 1
+            all_paths.setdefault(k, []).append(lp)
             # (index-free comparison cannot tell which of several like leaves is the orphan:
             #  prefer one that no entry of this side names by its exact path)
             if k not in first_path or (
@@ -530,20 +538,26 @@ def diff_truth(entries, lhs, rhs, modes):
                         continue
                     k = (lp if pos else erase(lp), tok)
                     got[k] += 1
-                    got_path[k] = lp
+                    # remember the paths; one the document does not have (a phantom) first
+                    if resolve(doc, lp)[0]:
+                        got_path.setdefault(k, []).append(lp)
+                    else:
+                        got_path.setdefault(k, []).insert(0, lp)
         for k in want:
             if got[k] < want[k]:
                 fails.append(_fail(side + "-once", first_path[k],
                                    "%s leaf is accounted for %d time(s) by %s entries, the document holds it %d time(s)"
                                    % (side, got[k], "/".join(actions), want[k]),
-                                   side=side, leaf=k[1], got=got[k], want=want[k]))
+                                   side=side, leaf=k[1], got=got[k], want=want[k],
+                                   candidates=[list(x) for x in all_paths[k]]))
         for k in got:
             if got[k] > want[k]:
-                lp = got_path[k]
+                lp = got_path[k][0]
                 fails.append(_fail(side + "-once", lp,
                                    "%s entries account %d time(s) for a leaf the document holds %d time(s)"
                                    % (side, got[k], want[k]),
-                                   side=side, leaf=k[1], got=got[k], want=want[k], erased=path_text_erased(k[0])))
+                                   side=side, leaf=k[1], got=got[k], want=want[k], erased=path_text_erased(k[0]),
+                                   candidates=[list(x) for x in got_path[k]]))
     return fails
 
 
